@@ -19,11 +19,12 @@ import uuid
 import logging
 import argparse
 import tempfile
+import ipaddress
 import contextlib
 import subprocess
 from typing import List, Tuple, Optional, Generator
 
-from .utils import bytes_
+from .utils import text_, bytes_
 from .version import __version__
 from .constants import COMMA
 
@@ -173,7 +174,13 @@ def get_ext_config(
     if alt_subj_names is not None and len(alt_subj_names) > 0:
         alt_names = []
         for cname in alt_subj_names:
-            alt_names.append(b'DNS:%s' % bytes_(cname))
+            # IP literals (an IPv6 one may still carry its brackets) need an IP, not a DNS, entry
+            literal = text_(cname).strip('[]')
+            try:
+                ipaddress.ip_address(literal)
+                alt_names.append(b'IP:%s' % bytes_(literal))
+            except ValueError:
+                alt_names.append(b'DNS:%s' % bytes_(cname))
         config += b'\nsubjectAltName=' + COMMA.join(alt_names)
     # Add extendedKeyUsage section
     if extended_key_usage is not None:
